@@ -176,6 +176,16 @@ class NpProxy:
     def isfinite(self, x):
         return ~self.isnan(x)
 
+    def nansum(self, a, axis=None, **kw):
+        a = _np.asarray(a)
+        if a.dtype != object:
+            return _np.nansum(a, axis=axis, **kw)
+        OVERRIDES_USED.add('np.nansum -> sum over the entries that are not the missing sentinel (exact 0 for none)')
+        miss = self.isnan(a)
+        z = _np.where(miss, sp.Integer(0), a)
+        z = _np.asarray(z, dtype=object)
+        return _np.sum(z, axis=axis) + sp.Integer(0)
+
     def std(self, a, axis=None, ddof=0, keepdims=False):
         OVERRIDES_USED.add('np.std -> sqrt(mean((x-mean)^2))')
         a = _obj(a)
@@ -242,8 +252,8 @@ def identical(a, b):
         return False, 'shape', (a.shape, b.shape)
     for idx in itertools.product(*[range(s) for s in a.shape]):
         x, y = a[idx], b[idx]
-        xn = isinstance(x, float) and x != x
-        yn = isinstance(y, float) and y != y
+        xn = (isinstance(x, float) and x != x) or x is sp.nan or x is sp.zoo
+        yn = (isinstance(y, float) and y != y) or y is sp.nan or y is sp.zoo
         if xn or yn:
             if xn != yn:
                 return False, idx, (x, y)
